@@ -17,6 +17,15 @@ def jobs(tier):
     J.append(V.Job("zero_frequencies", "vnacal/c03_add.c", "h_zero_frequencies", C20.BASE, defines=C20.CUT, unwind=14,
                    union_struct=True, kind="bounded", functions=["vnacal_new_alloc", "vnacal_new_set_frequency_vector"],
                    bound="T8 2x2 calibration with 0 frequencies", timeout=200))
+    J.append(V.Job("zero_frequencies_m_error", "vnacal/c03_add.c", "h_zero_frequencies",
+                   C20.BASE + ["vnacal_new_set_m_error.c", "vnacommon_spline.c"], defines=C20.CUT + ["-DZERO_M_ERROR"], unwind=14,
+                   union_struct=True, kind="bounded", functions=["vnacal_new_set_m_error", "vnacal_new_set_frequency_vector"],
+                   bound="T8 2x2 calibration with 0 frequencies, noise model on a two-point grid", timeout=200))
+    J.append(V.Job("empty_calibration", "vnacal/c03_add.c", "h_empty_calibration",
+                   C20.BASE + ["vnacal_get.c"], defines=C20.CUT + ["-DEMPTY_CALIBRATION"], unwind=14,
+                   union_struct=True, kind="bounded",
+                   functions=["vnacal_get_fmin", "vnacal_get_fmax", "_vnacal_calibration_get_fmin_bound", "_vnacal_calibration_get_fmax_bound"],
+                   bound="a T8 1x1 calibration with 0 frequencies in the table", timeout=200))
     srcs_solve = sorted(set(C20.BASE + C20.SOLVE + C20.common_sources() + ["vnacal_make_unknown_parameter.c"]))
     for t in ("VNACAL_T8", "VNACAL_UE14"):
         J.append(V.Job("update_s_partial.%s" % t[7:], "vnacal/c20.c", "h_update_s_partial", srcs_solve,
